@@ -300,7 +300,10 @@ _public_ int m_mod_ps_subscribe(m_mod_t *mod, const char *topic, m_src_flags fla
         /* Lazy subscriptions map init */
         if (!mod->subscriptions)  {
             mod->subscriptions = m_map_new(M_MAP_VAL_ALLOW_UPDATE, mem_dtor);
-            M_ALLOC_ASSERT(mod->subscriptions);
+            if (!mod->subscriptions) {
+                regfree(&regex);
+                return -ENOMEM;
+            }
         } else {
             ev_src_t *old_sub = m_map_get(mod->subscriptions, topic);
             if (old_sub) {
@@ -310,6 +313,8 @@ _public_ int m_mod_ps_subscribe(m_mod_t *mod, const char *topic, m_src_flags fla
                         memhook._free((void *)old_sub->userptr);
                     }
                     old_sub->userptr = userptr;
+                    /* Existing subscription keeps its own compiled regex */
+                    regfree(&regex);
                     return 0;
                 }
                 /*
@@ -322,7 +327,10 @@ _public_ int m_mod_ps_subscribe(m_mod_t *mod, const char *topic, m_src_flags fla
 
         /* Store new sub as ref'd memory */
         ev_src_t *sub = m_mem_new(sizeof(ev_src_t), subscribtions_dtor);
-        M_ALLOC_ASSERT(sub);
+        if (!sub) {
+            regfree(&regex);
+            return -ENOMEM;
+        }
 
         ps_src_t *ps_src = &sub->ps_src;
         sub->type = M_SRC_TYPE_PS;
